@@ -28,3 +28,27 @@ Proof. exact lut_inj_ok. Qed.
 Theorem C01_lanes : forall w p ins lane, (lane < w)%N ->
   map (fun x => N.testbit x lane) (run_N w p ins) = run_bool p (map (fun x => N.testbit x lane) ins).
 Proof. intros. apply run_lift. assumption. Qed.
+
+(** MAIN THEOREM (scheduler level).  For EVERY well-formed, combinationally acyclic netlist and EVERY stimulus, executing
+    the scheduler's op list gate by gate yields a valuation of the lines that satisfies every node's equation (interface
+    nodes drive BUF/INV of their assigned value, forks copy, every gate's output is its selected LUT of its input lines,
+    unconnected pins read the constant-zero slot) -- in any value domain, hence per lane for any batch size.  With the
+    uniqueness theorem this IS "the value obtained by evaluating the netlist gate by gate". *)
+From KV Require Import Model.Netlist Model.NetlistWf Model.SimOps Model.AllocCheck Model.NetlistSem.
+From KV Require Proofs.SemProofs.
+Theorem C01_build_ops_solution : forall V (sem : N -> V -> V -> V -> V -> V) (zero : V) c stim,
+  wf_netlist c -> comb_acyclic c ->
+  solution sem zero c stim (iexec sem (fun x => x) (build_ops c false) (init_env zero c stim)).
+Proof. intros V sem zero. exact (KV.Proofs.SemProofs.build_ops_solution sem zero). Qed.
+
+Theorem C01_solution_unique : forall V (sem : N -> V -> V -> V -> V -> V) (zero : V) c stim v1 v2,
+  wf_netlist c -> comb_acyclic c ->
+  (forall n, n < List.length (c_nodes c) -> iface_pos c n = None -> is_fork (get_node c n) = false ->
+     select_lut kind_prefixes (n_kind (get_node c n)) (negb (is_some (pin (n_ins (get_node c n)) 2)))
+                (negb (is_some (pin (n_ins (get_node c n)) 3))) <> None) ->
+  (forall n, n < List.length (c_nodes c) -> is_dff (get_node c n) = true -> forall k o, 2 <= k -> pin (n_outs (get_node c n)) k = Some o -> False) ->
+  (forall n, n < List.length (c_nodes c) -> iface_pos c n = None -> is_fork (get_node c n) = false ->
+     forall k o, 1 <= k -> pin (n_outs (get_node c n)) k = Some o -> False) ->
+  solution sem zero c stim v1 -> solution sem zero c stim v2 ->
+  forall l, l < List.length (c_lines c) -> v1 l = v2 l.
+Proof. intros V sem zero. exact (KV.Proofs.SemProofs.solution_unique sem zero). Qed.
